@@ -158,9 +158,15 @@ def run(tape, kind, k_hist=None):
     pil = sr.pilot(elfi, spec) if family == 'inference' else None
     for op in ops:
         if op['kind'] == 'sample':
-            meth = tape.choice('method', ['rejection', 'smc'])
-            op['wl'] = sr.gen_rejection_workload(tape, spec, pil) if meth == 'rejection' else \
-                sr.gen_smc_workload(tape, spec, pil)
+            meth = tape.choice('method', ['rejection', 'smc', 'rejection', 'smc', 'atsmc'])
+            if meth == 'atsmc':
+                op['wl'] = {'method': 'atsmc', 'batch_size': tape.int('batch_size', 4, 16),
+                            'seed': tape.int('seed', 0, 2 ** 20),
+                            'n_samples': tape.int('n_samples', 12, 30), 'output_names': [],
+                            'objective': {'max_iter': tape.int('max_iter', 2, 3)}}
+            else:
+                op['wl'] = sr.gen_rejection_workload(tape, spec, pil) if meth == 'rejection' \
+                    else sr.gen_smc_workload(tape, spec, pil)
     digests = {}        # key -> digest (first history that produced it)
     first_hist = {}
     gen_states = {}     # (seed, bs?, batch index) -> generator state digest
